@@ -169,6 +169,7 @@ structure St where
   buckets : List (String × Bucket.TB) := []
   limiters : List (String × Bucket.RL) := []
   srv : Option Server.St := none
+  dur : Durable.File := { data := [], durable := [] }
 
 def findCache (st : St) (n : String) : Option CacheSlot := st.caches.find? (·.name == n)
 def setCache (st : St) (slot : CacheSlot) : St :=
@@ -566,6 +567,19 @@ def srvCmd (st : St) : List String → St × String
     | _, _, _, _, _, _, _, _, _, _, _, _ => (st, "bad-op")
   | _ => (st, "bad-op")
 
+def durCmd (st : St) : List String → St × String
+  | ["reset"] => ({ st with dur := { data := [], durable := [] } }, "ok")
+  | ["write", off, d] => match off.toNat?, fromHex d with
+    | some off, some d => ({ st with dur := Durable.step st.dur (.writeAt off d) }, "ok")
+    | _, _ => (st, "bad-op")
+  | ["trunc", n] => match n.toNat? with
+    | some n => ({ st with dur := Durable.step st.dur (.truncate n) }, "ok")
+    | none => (st, "bad-op")
+  | ["sync"] => ({ st with dur := Durable.step st.dur .sync }, "ok")
+  | ["crash"] => ({ st with dur := Durable.crash st.dur }, "ok")
+  | ["get"] => (st, s!"{toHex st.dur.data} {toHex st.dur.durable}")
+  | _ => (st, "bad-op")
+
 def rlCmd (st : St) : List String → St × String
   | ["bucket", name, n, d, burst, now] =>
     match n.toNat?, d.toNat?, burst.toNat?, now.toNat? with
@@ -713,6 +727,7 @@ def step (st : St) (line : String) : St × String :=
   | "pool" :: args => (st, poolCmd args)
   | "drain" :: args => drainCmd st args
   | "srv" :: args => srvCmd st args
+  | "dur" :: args => durCmd st args
   | "conns" :: args => (st, connsCmd args)
   | "fs" :: args => fsCmd st args
   | ["reset"] => ({}, "ok")
